@@ -344,10 +344,7 @@ def run_snapshot(ctx, case):
         sp['pot'][key]['sigma'] = G.sigma_of(sp, a, b) + float(rng.choice([0.0, sp['dr'], 2 * sp['dr']]))
     if len(sp['types']) > 1 and rng.random() < 0.5:
         # copolymer-like: tabulated, non-zero cross intramolecular correlations
-        kgrid = R.grids(sp['L'], sp['dr'])[1]
-        for (i, j), (a, b) in G.pairs(sp['types'], diagonal=False):
-            if rng.random() < 0.7:
-                sp['om'][G.pk(a, b)] = {'t': 'ARR', 'w': (float(rng.uniform(0.2, 1.5)) * np.exp(-kgrid * float(rng.uniform(0.2, 1.0)))).tolist()}
+        G.add_cross_omegas(sp, rng, p_pair=0.7, amp=(0.2, 1.5))
     if rng.random() < 0.12:
         arr = {k: v for k, v in sp['om'].items() if v['t'] == 'ARR'}
         sp = G.integer_grid(sp)
